@@ -82,6 +82,8 @@ func runC04(r *engine.Run) {
 	r.Rule("ORDER-critical", "see C16: Insert, Delete, MergeChanges and MergeDB are one critical section each, from the first read of the root to its last update")
 	r.Rule("AGREE-snapshot", "see C03: root, changes, deletes and start root handed to the merge come from one GetChanges call")
 	r.Rule("CLONE-deep", "see C07: Clone() of every node type is a deep copy (the codec round trip), never a value that shares path/key/value memory with the receiver - FRESH-node treats Clone() results as fresh, and an in-place append onto a shallow copy writes into the store's object")
+	r.Rule("ERR-select", "where a function waits for a writer goroutine with a select over the writer's error channel and a completion channel made in the same function, no nil-error return is reachable from the completion case without a further receive on the error channel: both cases can be ready at once (the writer failed and finished before the waiter got there) and select picks at random, so a failed save would sometimes be reported as successful")
+	r.Rule("FRESH-pathbuf", "see C01: Insert hands the walk a copy of the caller's path, never the parameter itself or a slice of it (nodes keep sub-slices of the walked path; the saved state of a caller that refills one key buffer would otherwise lose nodes)")
 	r.Rule("WHO-deadlist", "see C05: a node that goes through the change collector is never also parked in deleteNodes, the dead list nothing reconciles (re-created later in the round it would still be reported dead, and the prune would delete a node a saved root uses)")
 	r.Rule("AGREE-split", "see C02: wherever the trie builds a leaf, its position prefix and its remaining path are cut from the same slice at the same point (prefix + path = the key): the prefix is part of the hash pre-image, so two entries with equal suffix and value but a wrong prefix collapse into one stored node, and deleting one of them records the other's node dead")
 	r.NotDec = append(r.NotDec, "completeness of the change set for every history (needs the map semantics of C01)", "RocksDB's own crash behaviour")
@@ -102,6 +104,8 @@ func runC04(r *engine.Run) {
 	cloneDeep(r)
 	whoDeadList(r, "WHO-deadlist")
 	agreeSplit(r)
+	errSelect(r, "ERR-select", funcsOfPkg(r, pkgUtil), 1)
+	freshPathBuf(r, "FRESH-pathbuf")
 }
 
 func whoCollect(r *engine.Run) {
